@@ -294,7 +294,8 @@ def plan(tier, seed):
             for depth in (10, 0):
                 if mode == "ticks+nb" and depth == 0:
                     continue
-                if depth == 0 and len(text) > 20:
+                if depth == 0 and (len(text) > 20 or text in INPUTS_WIDE):
+                    # without depth limit the production loop works through every one of the 729 sequences' expansions: one reference run takes > 10 min
                     continue
                 cand.append((text, mode, depth))
     wide = set()
